@@ -62,22 +62,38 @@ func mergeSafe(files []transformer.ModuleFile, schema string) (m *openfgav1.Auth
 		}
 	}()
 	m, err = transformer.TransformModuleFilesToModel(files, schema)
-	if err != nil {
-		var me *transformer.ModuleValidationMultipleError
-		if errors.As(err, &me) {
-			for _, e := range me.Errors {
-				var se *transformer.ModuleTransformationSingleError
-				if errors.As(e, &se) {
-					errs = append(errs, mergeErr{Msg: se.Msg, File: se.File, Line: se.Line.Start, Col: se.Column.Start, LineE: se.Line.End, ColE: se.Column.End})
-				} else {
-					errs = append(errs, mergeErr{Msg: e.Error(), Syntax: true})
-				}
+	errs = mergeErrList(err)
+	return
+}
+
+// mergeErrList reads the public fields of a merge error (nil for a nil error).
+func mergeErrList(err error) (errs []mergeErr) {
+	if err == nil {
+		return nil
+	}
+	var me *transformer.ModuleValidationMultipleError
+	if errors.As(err, &me) {
+		for _, e := range me.Errors {
+			var se *transformer.ModuleTransformationSingleError
+			if errors.As(e, &se) {
+				errs = append(errs, mergeErr{Msg: se.Msg, File: se.File, Line: se.Line.Start, Col: se.Column.Start, LineE: se.Line.End, ColE: se.Column.End})
+			} else {
+				errs = append(errs, mergeErr{Msg: e.Error(), Syntax: true})
 			}
-		} else {
-			errs = append(errs, mergeErr{Msg: "unexpected error type: " + err.Error(), Syntax: true})
 		}
+	} else {
+		errs = append(errs, mergeErr{Msg: "unexpected error type: " + err.Error(), Syntax: true})
 	}
 	return
+}
+
+// mergeErrText renders a merge error with its public fields (Error() alone omits the file).
+func mergeErrText(err error) string {
+	var b strings.Builder
+	for _, e := range mergeErrList(err) {
+		fmt.Fprintf(&b, "%s [file=%q line=%d-%d col=%d-%d]; ", e.Msg, e.File, e.Line, e.LineE, e.Col, e.ColE)
+	}
+	return b.String()
 }
 
 func fileTexts(in modInput) string {
